@@ -289,6 +289,14 @@ def run(ctx: Ctx):
     ctx.floors = {'cells': ('cells_compared', 2000), 'add_node contract': ('add_node_contract_evaluations', 2000),
                   'surplus': ('surplus_cases', 20)}
     treecontract.uninstall()
+    if shard_i == 0:
+        # environment axis (import from a string and from a UTF-8 file): other hash seeds, warnings as errors, ASCII default encoding,
+        # -O, another current directory - the tree of a text is the same everywhere
+        from .. import envchild
+        import random as _r
+        texts = [gen_doc(_r.Random(subseed(ctx.seed, 'c02env', i)), profile(['texty', 'splitty', 'default'][i % 3], hostile_text=0.8,
+                                                                          measures=(1, 3))).text() for i in range(5)]
+        envchild.run_variants(ctx, texts)
 
 
 def document_fields(ctx, case, adoc, text):
